@@ -755,17 +755,17 @@ REGISTRY = {
     'C12': dict(modules=['LibconfigModel.Properties.C12'], run=run_C12, assumptions=COMMON_ASSUMPTIONS + ['stdio reports a failed write(2) through fflush()/ferror(); a successful fclose() means the kernel accepted all data']),
     'C09': dict(modules=['LibconfigModel.Properties.C09'], run=run_C09, assumptions=COMMON_ASSUMPTIONS),
     'C08': dict(modules=['LibconfigModel.Properties.C08', 'LibconfigModel.Properties.C08Float'], run=run_C08, assumptions=COMMON_ASSUMPTIONS),
-    'C02': dict(modules=['LibconfigModel.Properties.C02', 'LibconfigModel.Properties.C02Complete'], run=run_C02, assumptions=COMMON_ASSUMPTIONS),
-    'C04': dict(modules=['LibconfigModel.Properties.C04', 'LibconfigModel.Properties.C04Read'], run=run_C04, assumptions=COMMON_ASSUMPTIONS),
-    'C05': dict(modules=['LibconfigModel.Properties.C05'], run=run_C05, assumptions=COMMON_ASSUMPTIONS),
+    'C02': dict(modules=['LibconfigModel.Properties.C02', 'LibconfigModel.Properties.C02Complete', 'LibconfigModel.Properties.Bridge'], run=run_C02, assumptions=COMMON_ASSUMPTIONS),
+    'C04': dict(modules=['LibconfigModel.Properties.C04', 'LibconfigModel.Properties.C04Read', 'LibconfigModel.Properties.Bridge'], run=run_C04, assumptions=COMMON_ASSUMPTIONS),
+    'C05': dict(modules=['LibconfigModel.Properties.C05', 'LibconfigModel.Properties.Bridge'], run=run_C05, assumptions=COMMON_ASSUMPTIONS),
     'C06': dict(modules=['LibconfigModel.Properties.C06'], run=run_C06, assumptions=COMMON_ASSUMPTIONS),
     'C07': dict(modules=['LibconfigModel.Properties.C07'], run=run_C07, assumptions=COMMON_ASSUMPTIONS),
     'C16': dict(modules=['LibconfigModel.Properties.C16'], run=run_C16, assumptions=COMMON_ASSUMPTIONS),
-    'C19': dict(modules=['LibconfigModel.Properties.C19'], run=run_C19, assumptions=COMMON_ASSUMPTIONS),
+    'C19': dict(modules=['LibconfigModel.Properties.C19', 'LibconfigModel.Properties.Bridge'], run=run_C19, assumptions=COMMON_ASSUMPTIONS),
 }
 
 import props_c01
-REGISTRY['C01'] = dict(modules=['LibconfigModel.Properties.C01', 'LibconfigModel.Properties.C01Lex', 'LibconfigModel.Properties.C01Parse', 'LibconfigModel.Properties.C01RoundTrip'], run=props_c01.run_C01, assumptions=COMMON_ASSUMPTIONS)
+REGISTRY['C01'] = dict(modules=['LibconfigModel.Properties.C01', 'LibconfigModel.Properties.C01Lex', 'LibconfigModel.Properties.C01Parse', 'LibconfigModel.Properties.C01RoundTrip', 'LibconfigModel.Properties.Bridge'], run=props_c01.run_C01, assumptions=COMMON_ASSUMPTIONS)
 
 import props_c1011
 def run_C10_all(ctx):
@@ -783,7 +783,7 @@ def run_C10_all(ctx):
             stats['c10:seam'] = stats.get('c10:seam', 0) + 1
     correspondence(ctx, [seams], proj_full, None, 'C10 include seams', 'seams')
 
-REGISTRY['C10'] = dict(modules=['LibconfigModel.Properties.C10', 'LibconfigModel.Properties.C10Splice'], run=run_C10_all, assumptions=COMMON_ASSUMPTIONS)
+REGISTRY['C10'] = dict(modules=['LibconfigModel.Properties.C10', 'LibconfigModel.Properties.C10Splice', 'LibconfigModel.Properties.C10SpliceTotal'], run=run_C10_all, assumptions=COMMON_ASSUMPTIONS)
 REGISTRY['C11'] = dict(modules=['LibconfigModel.Properties.C11'], run=props_c1011.run_C11, assumptions=COMMON_ASSUMPTIONS)
 
 import props_c17
